@@ -175,6 +175,120 @@ def lifecycle(ctx):
     return '\n'.join(out)
 
 
+# ---------------------------------------------------------------------------------- Deep.start / Deep.shutdown plans
+FLD = {'started': 'Fld.started', '_shutdown': 'Fld.everShut'}
+START_CALLS = {'self.trigger_handler.start()': 'Prim.thStart', 'self.grpc.start()': 'Prim.grpcStart',
+               'self.poll.start()': 'Prim.pollStart'}
+START_ASSIGN = {
+    'self.config.plugins = load_plugins(self.config, self.config.PLUGINS)': 'Prim.loadPlugins',
+    'default_resource = Resource.create()': 'Prim.resourceCreate',
+    'self.config.resource = default_resource': 'Prim.setResource',
+}
+STEP_REF = {'self.trigger_handler.shutdown': 'StepRef.thShutdown', 'self.task_handler.flush': 'StepRef.flush',
+            'self.poll.shutdown': 'StepRef.pollShutdown'}
+PLUGIN_STEPS = '[plugin.shutdown for plugin in self.config.plugins]'
+
+
+def _is_log_stmt(s):
+    return isinstance(s, ast.Expr) and isinstance(s.value, ast.Call) and skeleton.is_log_call(s.value)
+
+
+def _flag_test(test):
+    """`self.<flag>` / `not self.<flag>` -> (Lean Fld, negated) or None"""
+    neg = False
+    if isinstance(test, ast.UnaryOp) and isinstance(test.op, ast.Not):
+        neg, test = True, test.operand
+    if isinstance(test, ast.Attribute) and ast.unparse(test.value) == 'self' and test.attr in FLD:
+        return FLD[test.attr], neg
+    return None
+
+
+def _steps_elems(value):
+    """a list display of bound methods of the services / the comprehension over the plugins -> [StepRef] or None"""
+    if ast.unparse(value) == PLUGIN_STEPS:
+        return ['StepRef.plugins']
+    if isinstance(value, ast.List):
+        out = []
+        for e in value.elts:
+            t = ast.unparse(e)
+            if t not in STEP_REF:
+                return None
+            out.append(STEP_REF[t])
+        return out
+    if isinstance(value, ast.BinOp) and isinstance(value.op, ast.Add):
+        a, b = _steps_elems(value.left), _steps_elems(value.right)
+        return None if a is None or b is None else a + b
+    return None
+
+
+def plan_of(fdef):
+    """one LStmt per statement of the body, in source order; what is not understood becomes `.opaque` (never guessed).
+    The local list `steps` of Deep.shutdown is followed symbolically up to the loop that runs it."""
+    out = []
+    steps = None            # symbolic value of the local `steps`
+
+    def opaque(s):
+        out.append('.opaque ' + lean_str(' '.join(ast.unparse(s).split())[:80]))
+
+    for s in skeleton.strip_doc(list(fdef.body)):
+        t = ast.unparse(s)
+        if isinstance(s, ast.If) and not s.orelse and _flag_test(s.test) and s.body \
+                and isinstance(s.body[-1], ast.Return) and s.body[-1].value is None \
+                and all(_is_log_stmt(x) for x in s.body[:-1]):
+            fld, neg = _flag_test(s.test)
+            pre = ', '.join('Prim.log' for _ in s.body[:-1])
+            out.append(f'.retIf {fld} {"true" if neg else "false"} [{pre}]')
+        elif isinstance(s, ast.Assign) and len(s.targets) == 1 and isinstance(s.targets[0], ast.Attribute) \
+                and ast.unparse(s.targets[0].value) == 'self' and s.targets[0].attr in FLD \
+                and isinstance(s.value, ast.Constant) and isinstance(s.value.value, bool):
+            out.append(f'.set {FLD[s.targets[0].attr]} {"true" if s.value.value else "false"}')
+        elif t in START_ASSIGN:
+            out.append(f'.prim {START_ASSIGN[t]}')
+        elif isinstance(s, ast.Expr) and t in START_CALLS:
+            out.append(f'.prim {START_CALLS[t]}')
+        elif _is_log_stmt(s):
+            out.append('.prim Prim.log')
+        elif isinstance(s, ast.For) and ast.unparse(s.iter) == 'self.config.resource_providers' and not s.orelse \
+                and len(s.body) == 1 and isinstance(s.body[0], ast.Try):
+            out.append('.prim Prim.providers')          # the loop itself: skeleton `deepStart`, C20
+        elif isinstance(s, ast.Assign) and len(s.targets) == 1 and ast.unparse(s.targets[0]) == 'steps' \
+                and _steps_elems(s.value) is not None:
+            steps = _steps_elems(s.value)
+        elif isinstance(s, ast.AugAssign) and isinstance(s.op, ast.Add) and ast.unparse(s.target) == 'steps' \
+                and steps is not None and _steps_elems(s.value) is not None:
+            steps = steps + _steps_elems(s.value)
+        elif isinstance(s, ast.For) and ast.unparse(s.iter) == 'steps' and isinstance(s.target, ast.Name) \
+                and steps is not None and not s.orelse and len(s.body) == 1 and isinstance(s.body[0], ast.Try):
+            tr = s.body[0]
+            var = s.target.id
+            ok = (len(tr.body) == 1 and ast.unparse(tr.body[0]) == f'{var}()' and not tr.orelse and not tr.finalbody
+                  and len(tr.handlers) == 1 and tr.handlers[0].type is not None
+                  and ast.unparse(tr.handlers[0].type) in ('BaseException', 'Exception')
+                  and all(_is_log_stmt(x) for x in tr.handlers[0].body))
+            if ok:
+                ca = 'true' if ast.unparse(tr.handlers[0].type) == 'BaseException' else 'false'
+                out.append(f'.stepsLoop [{", ".join(steps)}] {ca}')
+                steps = None
+            else:
+                opaque(s)
+        else:
+            opaque(s)
+    return out
+
+
+def deep_plan(ctx):
+    out = ['namespace Extracted.DeepLC', 'open Lifecycle\n']
+    for lean, q in (('startPlan', 'Deep.start'), ('shutdownPlan', 'Deep.shutdown')):
+        try:
+            plan = plan_of(ctx.find(DEEP, q))
+        except (Untranslatable, FileNotFoundError) as e:
+            plan = ['.opaque ' + lean_str(f'{q}: {e}')]
+        out.append(f'/-- `{q}` statement by statement (src/deep/api/deep.py); `.opaque` = a statement outside the subset -/\n'
+                   f'def {lean} : List LStmt :=\n  [' + ',\n   '.join(plan) + ']\n')
+    out.append('end Extracted.DeepLC\n')
+    return '\n'.join(out)
+
+
 # ---------------------------------------------------------------------------------- plugin loader constants
 IS_ACTIVE_TEMPLATE = '''
 attr = getattr(self.config, f'plugin_{self.name}'.upper(), 'True')
@@ -344,6 +458,7 @@ def generate():
                  'def handlerTemplates : List (String × String × String) :=\n  [' + ',\n   '.join(rows) + ']\n')
     parts.append('end Extracted.Guards\n')
     parts.append(lifecycle(ctx))
+    parts.append(deep_plan(ctx))
     parts.append(plugins_consts(ctx))
     return '\n'.join(parts)
 
